@@ -27,7 +27,7 @@ type c18Line struct {
 var c18IPs = []string{"0.0.0.0", "127.0.0.1", "192.168.1.10", "10.0.0.1", "255.255.255.255", "::", "::1", "2001:db8::1", "fe80::1", "::ffff:1.2.3.4", "::ffff:0:0", "1.1.1.1", "fe80::1%eth0", "0:0:0:0:0:0:0:1", "2001:DB8::A", "0000:0000:0000:0000:0000:ffff:192.168.100.200", "0:0:0:0:0:ffff:192.168.1.1", "ffff:ffff:ffff:ffff:ffff:ffff:ffff:ffff"}
 
 var c18Labels = []string{"example", "ads", "tracker", "a", "x1", "my-host", "cdn", "www", "sub", "test", "zz", "longer-label-with-dashes", "under_score", "9to5", "xn--p1ai", gen.Label63, "cafe", "bad", "abc", "fe", "dead", "beef", "0", "00"}
-var c18TLDs = []string{"org", "com", "net", "local", "co.uk", "io", "ru", "xn--p1ai", "lan", "de", "ee", "be", "cafe", "ca"}
+var c18TLDs = []string{"org", "com", "net", "local", "co.uk", "io", "ru", "xn--p1ai", "lan", "de", "ee", "be", "cafe", "ca", "xn--vermgensberater-ctb", "xn--vermgensberatung-pwb", "xn--mgbc0a9azcg", "xn--80adxhks", "xn--ab-cd"}
 
 func c18Name(c *core.Ctx, bare bool) string {
 	if c.Rng.Intn(12) == 0 && len(gen.HostGroups) > 0 {
